@@ -73,6 +73,9 @@ class error_999_visitor(pyx12.error_visitor.error_visitor):
                                           time.strftime('%H%M')))[1:]
         self.gs_control_num = '%i' % (random.randint(10000000, 999999999))
         icvn = seg.get_value('ISA12')
+        if icvn not in ('00401', '00501'):
+            # a stray ISA inside the data may carry anything; these are the versions that can be read back
+            icvn = '00501'
         isa_seg = pyx12.segment.Segment('ISA*00*          *00*          ',
                                         self.seg_term, self.ele_term, self.subele_term)
         # ISA elements are fixed width; the values come from a received ISA that may be malformed
